@@ -163,3 +163,54 @@ where
 {
     kani::any::<u8>() as usize
 }
+
+/// `midnight_proofs::plonk::prepare`: any answer. The Ok guard is the empty DualMSM (all-zero bytes =
+/// three empty Vecs per channel), which is what an opaque key can at most produce.
+pub fn prepare_stub<F, CS: midnight_proofs::poly::commitment::PolynomialCommitmentScheme<F>, T: midnight_proofs::transcript::Transcript>(
+    _vk: &midnight_proofs::plonk::VerifyingKey<F, CS>,
+    _committed_instances: &[&[CS::Commitment]],
+    _instances: &[&[&[F]]],
+    _transcript: &mut T,
+) -> Result<CS::VerificationGuard, midnight_proofs::plonk::Error>
+where
+    F: ff::WithSmallOrderMulGroup<3>
+        + midnight_proofs::transcript::Hashable<T::Hash>
+        + midnight_proofs::transcript::Sampleable<T::Hash>
+        + ff::FromUniformBytes<64>
+        + core::hash::Hash
+        + Ord,
+    CS::Commitment: midnight_proofs::transcript::Hashable<T::Hash>,
+{
+    if kani::any() {
+        Ok(unsafe { core::mem::MaybeUninit::zeroed().assume_init() })
+    } else {
+        Err(midnight_proofs::plonk::Error::Opening)
+    }
+}
+
+/// `DualMSM::check` (MSM + pairing, blst): any answer.
+pub struct DualStubs<E>(core::marker::PhantomData<E>);
+impl<E: midnight_curves::pairing::MultiMillerLoop + core::fmt::Debug> DualStubs<E>
+where
+    E::G1Affine: midnight_curves::CurveAffine<ScalarExt = E::Fr, CurveExt = E::G1>,
+{
+    pub fn check(s: midnight_proofs::poly::kzg::msm::DualMSM<E>, _params: &midnight_proofs::poly::kzg::params::ParamsVerifierKZG<E>) -> bool {
+        core::mem::forget(s);
+        kani::any()
+    }
+    /// `DualMSM::scale` multiplies every scalar (rayon + blst; rayon makes Kani's compiler panic)
+    pub fn scale(_s: &mut midnight_proofs::poly::kzg::msm::DualMSM<E>, _e: E::Fr) {}
+    /// `DualMSM::add_msm` appends the other accumulator's terms
+    pub fn add_msm(_s: &mut midnight_proofs::poly::kzg::msm::DualMSM<E>, other: midnight_proofs::poly::kzg::msm::DualMSM<E>) {
+        core::mem::forget(other);
+    }
+}
+
+pub unsafe fn blst_p1_from_affine_stub(out: *mut blst::blst_p1, _a: *const blst::blst_p1_affine) {
+    let x: [u64; 6] = kani::any();
+    let y: [u64; 6] = kani::any();
+    let z: [u64; 6] = kani::any();
+    (*out).x = blst::blst_fp { l: x };
+    (*out).y = blst::blst_fp { l: y };
+    (*out).z = blst::blst_fp { l: z };
+}
